@@ -85,31 +85,26 @@ _base = st.fixed_dictionaries({
     "headers": st.lists(_pair(HNAMES, ["1", "2"]), max_size=2),
 })
 
-_mut = st.one_of(
-    st.tuples(st.just("method"), st.sampled_from(METHODS)),
-    st.tuples(st.just("scheme"), st.sampled_from(SCHEMES)),
-    st.tuples(st.just("host"), st.sampled_from(HOSTS)),
-    st.tuples(st.just("port"), st.sampled_from(PORTS)),
-    st.tuples(st.just("path"), st.sampled_from(PATHS)),
-    st.tuples(st.just("q_set"), st.integers(0, 2), st.sampled_from(VALS)),
-    st.tuples(st.just("q_add"), st.sampled_from(QKEYS), st.sampled_from(VALS)),
-    st.tuples(st.just("q_swap")),
-    st.tuples(st.just("q_del"), st.integers(0, 2)),
-    st.tuples(st.just("raw"), st.sampled_from(RAWS)),
-    st.tuples(st.just("kind"), st.sampled_from(KINDS)),
-    st.tuples(st.just("f_set"), st.integers(0, 2), st.sampled_from(FVALS)),
-    st.tuples(st.just("f_add"), st.sampled_from(FKEYS), st.sampled_from(FVALS)),
-    st.tuples(st.just("f_swap")),
-    st.tuples(st.just("h_set"), st.sampled_from(HNAMES), st.sampled_from(["1", "2"])),
-    st.tuples(st.just("h_del"), st.sampled_from(HNAMES)),
-    # the components that options can make irrelevant get extra weight (merging / splitting keys is the point)
-    st.tuples(st.just("host"), st.sampled_from(HOSTS)),
-    st.tuples(st.just("port"), st.sampled_from(PORTS)),
-    st.tuples(st.just("raw"), st.sampled_from(RAWS)),
-    st.tuples(st.just("q_add"), st.sampled_from(["t", "x"]), st.sampled_from(VALS)),
-    st.tuples(st.just("f_add"), st.sampled_from(["tok", "u"]), st.sampled_from(FVALS)),
-    st.tuples(st.just("h_set"), st.sampled_from(["X-A", "X-B"]), st.sampled_from(["1", "2"])),
-)
+def _all_muts():
+    out = []
+    out += [("method", m) for m in METHODS] + [("scheme", x) for x in SCHEMES]
+    # the components that options can make irrelevant get double weight (merging / splitting keys is the point)
+    out += [("host", h) for h in HOSTS] * 2 + [("port", p) for p in PORTS] * 2 + [("raw", r) for r in RAWS] * 2
+    out += [("path", p) for p in PATHS]
+    out += [("q_set", i, v) for i in range(3) for v in VALS]
+    out += [("q_add", k, v) for k in QKEYS for v in VALS] + [("q_add", k, v) for k in ("t", "x") for v in VALS]
+    out += [("q_swap",)] * 3 + [("q_del", i) for i in range(3)]
+    out += [("kind", k) for k in KINDS] * 2
+    out += [("f_set", i, v) for i in range(3) for v in FVALS]
+    out += [("f_add", k, v) for k in FKEYS for v in FVALS] + [("f_add", k, v) for k in ("tok", "u") for v in FVALS]
+    out += [("f_swap",)] * 3
+    out += [("h_set", n, v) for n in HNAMES for v in ("1", "2")] + [("h_set", n, v) for n in ("X-A", "X-B") for v in ("1", "2")]
+    out += [("h_del", n) for n in HNAMES]
+    return out
+
+
+# one draw per mutation (a one_of over tuple strategies costs several draws and dominated the run time)
+_mut = st.sampled_from(_all_muts())
 _muts = st.one_of(st.just([]), st.lists(_mut, min_size=1, max_size=1), st.lists(_mut, min_size=1, max_size=2))
 # a request/recording = variant number (index into the history's small pool of variants of the base request, so that
 # the same near-miss occurs several times and interleaved) + mostly no further mutations
@@ -128,8 +123,8 @@ def _weighted(*pairs):
 _who = st.tuples(st.integers(0, 3), _weighted((st.just([]), 3), (_muts, 1)))
 _rec = st.tuples(_who, st.sampled_from([True, True, True, True, True, False]))  # (who, has response)
 
-_opt_op = st.one_of([st.tuples(st.just("opt"), st.just(k), st.sampled_from(OPTS[k])) for k in sorted(OPTS)])
-_hash_opt_op = st.one_of([st.tuples(st.just("opt"), st.just(k), st.sampled_from(OPTS[k])).map(lambda x: x) for k in HASH_OPTS])
+_opt_op = st.sampled_from([("opt", k, v) for k in sorted(OPTS) for v in OPTS[k]])
+_hash_opt_op = st.sampled_from([("opt", k, v) for k in HASH_OPTS for v in OPTS[k]])
 _req_op = st.tuples(st.just("req"), _who)
 _misc_op = st.one_of(st.tuples(st.just("clear")),
                       st.tuples(st.just("load"), st.lists(_rec, min_size=1, max_size=4)),
